@@ -42,6 +42,10 @@ type Model struct {
 	reachMu map[string]map[*ssa.Function][]*ssa.Function // cache: root set key -> fn -> one call chain
 	ctxs    map[*ssa.Function]*FnCtx
 	facts   *RepoFacts
+	inv     *nonnegInv
+	nilable *nilableInfo
+	nilRet  map[*ssa.Function]string
+	invDone bool
 	fwTrans map[*ssa.Function]map[fieldID]bool
 }
 
